@@ -662,5 +662,319 @@ fn sign_and_tamper(m: &mut Message, sign: SignKind, tamper: Option<Tamper>) -> R
 fn _types(_: BTreeMap<Key, BTreeSet<String>>, _: tsig_ref::TsigView) {}
 
 pub fn def() -> CheckDef {
-    CheckDef { id: "C13", level: "exploration", parts: vec![Box::new(C13Part)] }
+    CheckDef { id: "C13", level: "exploration", parts: vec![Box::new(C13Part), Box::new(C13Client)] }
+}
+
+// ==========================================================================================
+// part "client": the real client transports with a signer (UdpClientStream::with_signer,
+// DnsMultiplexer::with_signer behind DnsExchange) talking over the simulated network to the
+// real server path; the link tampers with the *reply*.
+
+use std::net::{IpAddr, Ipv4Addr, SocketAddr};
+use std::rc::Rc;
+
+use futures_util::stream::StreamExt;
+use hickory_net::tcp::TcpClientStream;
+use hickory_net::udp::UdpClientStream;
+use hickory_net::xfer::{DnsExchange, DnsHandle, DnsMultiplexer};
+use hickory_net::runtime::{RuntimeProvider, Spawn};
+use hickory_proto::op::{DnsRequest, DnsRequestOptions};
+use hsim::net::{SimProvider, UdpOut};
+
+const CLIENT_IP: IpAddr = IpAddr::V4(Ipv4Addr::new(10, 0, 0, 1));
+const SERVER_ADDR: SocketAddr = SocketAddr::new(IpAddr::V4(Ipv4Addr::new(10, 0, 0, 53)), 53);
+
+#[derive(Serialize, Deserialize, Clone, Copy, Debug, PartialEq, Eq, PartialOrd, Ord)]
+enum ReplyTamper {
+    None,
+    StripTsig,
+    BitFlip(u32),
+    RewriteRcode(u8),
+    /// replace the reply by an unsigned NOERROR message with the same id and question
+    UnsignedForgery,
+    TruncMac(u8),
+    /// re-sign the (rewritten) reply with a key the client does not hold
+    ResignWrongKey,
+}
+
+#[derive(Serialize, Deserialize, Clone, Debug)]
+struct ClientPlan {
+    sim: SimConfig,
+    tcp: bool,
+    msgs: Vec<(UpdateMsg, ReplyTamper)>,
+}
+
+pub struct C13Client;
+
+impl Part for C13Client {
+    fn name(&self) -> &'static str {
+        "client"
+    }
+    fn runs(&self, tier: Tier) -> u64 {
+        match tier {
+            Tier::Quick => 8_000,
+            Tier::Thorough => 400_000,
+        }
+    }
+    fn block(&self, _t: Tier) -> u64 {
+        32
+    }
+    fn gen(&self, seed: u64, _tier: Tier) -> Value {
+        let mut r = Rng::new(seed);
+        let mut sim = SimConfig::from_seed(seed);
+        sim.step_budget = 400_000;
+        let n = 1 + r.usize_below(3);
+        let msgs = (0..n)
+            .map(|_| {
+                let t = match r.below(10) {
+                    0..=2 => ReplyTamper::None,
+                    3..=4 => ReplyTamper::StripTsig,
+                    5 => ReplyTamper::BitFlip(r.next_u64() as u32),
+                    6 => ReplyTamper::RewriteRcode(r.below(16) as u8),
+                    7 => ReplyTamper::UnsignedForgery,
+                    8 => ReplyTamper::TruncMac(*r.pick(&[0u8, 10, 16, 31])),
+                    _ => ReplyTamper::ResignWrongKey,
+                };
+                (simple_update(&mut r), t)
+            })
+            .collect();
+        serde_json::to_value(ClientPlan { sim, tcp: r.bool(), msgs }).unwrap()
+    }
+    fn run(&self, plan: &Value, trace: bool) -> Report {
+        let mut p: ClientPlan = serde_json::from_value(plan.clone()).expect("plan");
+        p.sim.trace = trace;
+        let mut sig = mix(p.tcp as u64);
+        for (_, t) in &p.msgs {
+            sig = mix(sig
+                ^ match t {
+                    ReplyTamper::None => 1,
+                    ReplyTamper::StripTsig => 2,
+                    ReplyTamper::BitFlip(_) => 3,
+                    ReplyTamper::RewriteRcode(_) => 4,
+                    ReplyTamper::UnsignedForgery => 5,
+                    ReplyTamper::TruncMac(_) => 6,
+                    ReplyTamper::ResignWrongKey => 7,
+                });
+        }
+        let nontrivial = p.msgs.iter().any(|(_, t)| *t != ReplyTamper::None);
+        let p2 = p.clone();
+        let out = exec::run(&p.sim, async move { client_scenario(p2).await });
+        finish(out, sig, nontrivial, "C13.stall")
+    }
+    fn shrink(&self, plan: &Value) -> Vec<Value> {
+        let Ok(p) = serde_json::from_value::<ClientPlan>(plan.clone()) else { return vec![] };
+        let mut out = Vec::new();
+        if p.msgs.len() > 1 {
+            for i in 0..p.msgs.len() {
+                let mut q = p.clone();
+                q.msgs.remove(i);
+                out.push(q);
+            }
+        }
+        out.into_iter().map(|q| serde_json::to_value(q).unwrap()).collect()
+    }
+    fn describe(&self) -> Describe {
+        Describe {
+            rule: "plan = (UDP or TCP client transport with a TSIG signer, 1-3 signed UPDATE requests sent through the real client stack to the real server path over the simulated network, each reply optionally tampered in flight: TSIG RR stripped, bit flip, rcode rewritten, unsigned forgery, MAC truncated, re-signed with a key the client does not hold); non-trivial = any reply tampering; distinct by transport and tamper sequence".into(),
+            real: vec!["client: UdpClientStream::with_signer, DnsMultiplexer::with_signer + TcpClientStream + DnsExchange, TSigVerifier", "server: Request::from_bytes -> Catalog::update -> SqliteZoneHandler (TSIG check, signed response)"],
+            stub: vec!["SimNet (UDP datagrams / TCP pipes), framing of the TCP server side by the harness", "reply tamper layer, RFC 8945 reference checker"],
+            assumptions: vec![],
+        }
+    }
+}
+
+fn tamper_reply(reply: &[u8], t: ReplyTamper, request: &[u8]) -> Vec<u8> {
+    match t {
+        ReplyTamper::None => reply.to_vec(),
+        ReplyTamper::StripTsig => apply_tamper(reply, Tamper::RemoveTsig).0,
+        ReplyTamper::BitFlip(sel) => {
+            // keep the id intact: a reply with another id is simply not this request's reply
+            let mut b = reply.to_vec();
+            if b.len() > 2 {
+                let bit = 16 + sel as usize % ((b.len() - 2) * 8);
+                b[bit / 8] ^= 1 << (bit % 8);
+            }
+            b
+        }
+        ReplyTamper::RewriteRcode(rc) => {
+            let mut b = reply.to_vec();
+            if b.len() > 3 {
+                let nv = (b[3] & 0xF0) | (rc & 0x0F);
+                b[3] = if nv == b[3] { b[3] ^ 1 } else { nv };
+            }
+            b
+        }
+        ReplyTamper::UnsignedForgery => {
+            let mut b = request[..12.min(request.len())].to_vec();
+            if b.len() == 12 {
+                b[2] |= 0x80; // QR
+                b[3] &= 0xF0; // NOERROR
+                b[6..12].copy_from_slice(&[0, 0, 0, 0, 0, 0]);
+                // copy the zone/question section
+                if let Ok(m) = Message::from_vec(request) {
+                    let mut r = Message::response(m.metadata.id, m.metadata.op_code);
+                    for q in &m.queries {
+                        r.add_query(q.clone());
+                    }
+                    return r.to_vec().unwrap_or(b);
+                }
+            }
+            b
+        }
+        ReplyTamper::TruncMac(n) => apply_tamper(reply, Tamper::TruncMac(n)).0,
+        ReplyTamper::ResignWrongKey => {
+            // strip the TSIG, flip the rcode to NOERROR, sign with an unrelated key
+            let stripped = apply_tamper(reply, Tamper::RemoveTsig).0;
+            match Message::from_vec(&stripped) {
+                Ok(mut m) => {
+                    m.metadata.response_code = ResponseCode::NoError;
+                    let s = signer_for(SignKind::WrongSecret).unwrap();
+                    let _ = m.finalize(&s, SimTime::current_time());
+                    m.to_vec().unwrap_or(stripped)
+                }
+                Err(_) => stripped,
+            }
+        }
+    }
+}
+
+async fn client_scenario(p: ClientPlan) {
+    net::configure(net::MS, net::MS);
+    let u = universe();
+    let init = initial_records(&u, 100);
+    let mut handler = new_handler(&u, Some(&init), AxfrPolicy::AllowAll).await;
+    handler.set_tsig_signers(vec![signer_for(SignKind::Good).unwrap()]);
+    let server = Rc::new(Server::new(&u, handler));
+    let keys: Vec<(&str, &[u8])> = vec![(KEY_NAME, KEY_SECRET)];
+    // (request bytes, delivered reply bytes) per exchange, in arrival order
+    let exchanges: Rc<std::cell::RefCell<Vec<(Vec<u8>, Vec<u8>)>>> = Rc::new(std::cell::RefCell::new(Vec::new()));
+    let tampers: Vec<ReplyTamper> = p.msgs.iter().map(|(_, t)| *t).collect();
+
+    // UDP side of the server
+    {
+        let server = server.clone();
+        let exchanges = exchanges.clone();
+        let tampers = tampers.clone();
+        net::udp_node(SERVER_ADDR, move |dg| {
+            let server = server.clone();
+            let exchanges = exchanges.clone();
+            let tampers = tampers.clone();
+            let (src, bytes) = (dg.src, dg.bytes.clone());
+            exec::spawn("srv-udp", async move {
+                if let Ok(Some(reply)) = server.handle::<SimTime>(bytes.clone(), Protocol::Udp).await {
+                    let k = exchanges.borrow().len();
+                    let t = tampers.get(k).copied().unwrap_or(ReplyTamper::None);
+                    let delivered = tamper_reply(&reply, t, &bytes);
+                    if delivered != reply {
+                        exec::count(&format!("fault.reply.{}", format!("{t:?}").split('(').next().unwrap()));
+                    }
+                    exchanges.borrow_mut().push((bytes, delivered.clone()));
+                    net::udp_send(SERVER_ADDR, src, delivered);
+                }
+            });
+            Vec::<UdpOut>::new()
+        });
+    }
+    // TCP side of the server
+    {
+        let server = server.clone();
+        let exchanges = exchanges.clone();
+        let tampers = tampers.clone();
+        net::tcp_listen(SERVER_ADDR, move |mut tcp, _peer| {
+            let server = server.clone();
+            let exchanges = exchanges.clone();
+            let tampers = tampers.clone();
+            exec::spawn("srv-tcp", async move {
+                let mut hdr = [0u8; 2];
+                loop {
+                    if tcp.read_exact(&mut hdr).await.is_err() {
+                        break;
+                    }
+                    let mut body = vec![0u8; u16::from_be_bytes(hdr) as usize];
+                    if tcp.read_exact(&mut body).await.is_err() {
+                        break;
+                    }
+                    if let Ok(Some(reply)) = server.handle::<SimTime>(body.clone(), Protocol::Tcp).await {
+                        let k = exchanges.borrow().len();
+                        let t = tampers.get(k).copied().unwrap_or(ReplyTamper::None);
+                        let delivered = tamper_reply(&reply, t, &body);
+                        if delivered != reply {
+                            exec::count(&format!("fault.reply.{}", format!("{t:?}").split('(').next().unwrap()));
+                        }
+                        exchanges.borrow_mut().push((body, delivered.clone()));
+                        let mut frame = (delivered.len() as u16).to_be_bytes().to_vec();
+                        frame.extend_from_slice(&delivered);
+                        if tcp.write_all(&frame).await.is_err() {
+                            break;
+                        }
+                    }
+                }
+                std::future::pending::<()>().await;
+                drop(tcp);
+            });
+        });
+    }
+
+    let provider = SimProvider::new(CLIENT_IP);
+    let signer = signer_for(SignKind::Good).unwrap();
+    let exchange: DnsExchange<SimProvider> = if p.tcp {
+        let (fut, handle) = TcpClientStream::new(SERVER_ADDR, None, Some(std::time::Duration::from_secs(2)), provider.clone());
+        let stream = match fut.await {
+            Ok(s) => s,
+            Err(e) => {
+                exec::violate("C13.harness", "", format!("connect: {e}"));
+                return;
+            }
+        };
+        let mux = DnsMultiplexer::new(stream, handle).with_timeout(std::time::Duration::from_secs(3)).with_signer(signer);
+        let (ex, bg) = DnsExchange::from_stream(mux);
+        provider.create_handle().spawn_bg(bg);
+        ex
+    } else {
+        let stream = UdpClientStream::builder(SERVER_ADDR, provider.clone()).with_timeout(Some(std::time::Duration::from_secs(3))).with_signer(Some(signer)).with_max_retries(1).build();
+        let (ex, bg) = DnsExchange::from_stream(stream);
+        provider.create_handle().spawn_bg(bg);
+        ex
+    };
+
+    for (i, (m, tamper)) in p.msgs.iter().enumerate() {
+        let msg = build_update_message(&u, 0x6000 + i as u16, m);
+        let req = DnsRequest::new(msg, DnsRequestOptions::default());
+        let before = exchanges.borrow().len();
+        let result = exchange.send(req).next().await;
+        let ex = exchanges.borrow().get(before).cloned();
+        match result {
+            Some(Ok(resp)) => {
+                exec::count("probe.client_ok");
+                let Some((request, delivered)) = ex else {
+                    exec::violate("C13.client-accepted", "no-exchange", format!("request {i}: client got a reply although the server saw no request"));
+                    return;
+                };
+                let req_mac = match ref_verify(&request, &keys, None) {
+                    RefVerdict::Valid { mac, .. } => mac,
+                    v => {
+                        exec::violate("C13.harness", "", format!("client's own request does not verify: {v:?}"));
+                        return;
+                    }
+                };
+                let verdict = ref_verify(&delivered, &keys, Some(&req_mac));
+                if !matches!(verdict, RefVerdict::Valid { .. }) {
+                    let tn = format!("{tamper:?}").split('(').next().unwrap().to_string();
+                    let transport = if p.tcp { "tcp" } else { "udp" };
+                    if exec::violate("C13.client-accepted", &format!("{transport}:{tn}"), format!("request {i}: the client accepted (rcode {:?}) a reply that does not verify: {verdict:?}", resp.metadata.response_code)) {
+                        return;
+                    }
+                }
+            }
+            Some(Err(e)) => {
+                exec::count("probe.client_err");
+                if *tamper == ReplyTamper::None {
+                    if exec::violate("C13.client-rejected", if p.tcp { "tcp" } else { "udp" }, format!("request {i}: untouched signed reply rejected by the client: {e}")) {
+                        return;
+                    }
+                }
+            }
+            None => {}
+        }
+    }
 }
